@@ -1,4 +1,5 @@
 import Milhouse.Exec.Kinds
+import Milhouse.Proofs.WorldSsz
 /-!
 # Line-protocol driver
 
@@ -141,6 +142,11 @@ structure World where
   scolls : List (Nat × SColl)
   strees : List (Nat × STree)
   sbuilders : List (Nat × SBuilder)
+  /-- the *proved* specification run side by side with the driver's own spec world: the plain state
+  `SWorld` of `Proofs/World.lean` (what `xrun_refines` is about) and the protocol slot of each of its
+  handles -/
+  twinSw : SWorld V := []
+  twinIdx : List (Nat × Nat) := []
   /-- update maps used directly (`m…` operations): the model's `UMap` and the plain association -/
   maps : List (Nat × UMap V) := []
   smaps : List (Nat × SMap) := []
@@ -195,25 +201,9 @@ def specRoot (w : World) (s : SColl) : Hh × Std.HashMap ByteArray ByteArray :=
     | .vector => Spec.vectorRoot E' alg w.cfg.N s.xs
   (r, cache)
 
-/-- SSZ root of the list made of `n` copies of `v`, computed without materialising it: a subtree of
-depth `d` whose chunks are `a` copies of the full chunk `F`, then possibly one partial chunk `T`,
-then zero chunks. -/
-def specRepRoot (E : Elem V Hh) (N n : Nat) (v : V) : Hh :=
-  let pfk := E.pf.getD 1
-  let F : Hh := match E.pf with
-    | some k => E.packHash (List.replicate k v)
-    | none => E.leafHash v
-  let a := n / pfk
-  let tail : Option Hh := if n % pfk = 0 then none else some (E.packHash (List.replicate (n % pfk) v))
-  let depth := Spec.limitDepth (Spec.chunkLimit E N)
-  let fullAt (d : Nat) : Hh := (List.range d).foldl (fun h _ => alg.h2 h h) F
-  let zeroAt (d : Nat) : Hh := (List.range d).foldl (fun h _ => alg.h2 h h) zero32
-  let rec go : Nat → Nat → Hh
-    | 0, a => if a ≥ 1 then F else (tail.getD zero32)
-    | d + 1, a =>
-      if a ≥ 2 ^ d then alg.h2 (fullAt d) (go d (a - 2 ^ d))
-      else alg.h2 (go d a) (zeroAt d)
-  mixIn (go depth a) n
+/-- SSZ root of the list made of `n` copies of `v`, computed without materialising it
+(`Spec.repRoot`; `Proofs/RepRoot.lean` proves it equal to `Spec.listRoot` of the replicated list). -/
+def specRepRoot (E : Elem V Hh) (N n : Nat) (v : V) : Hh := Spec.repRoot E alg mixIn N n v
 
 /-- independent SSZ decoder for the spec side: accepts exactly the canonical encodings. -/
 def specDecode (E : Elem V Hh) (bs : List UInt8) : Option (List V) :=
@@ -354,7 +344,7 @@ abbrev Out := String × String   -- (model, spec)
 def bad : World × Out → World × Out := id
 
 /-- Interpret one line. Unknown / malformed lines give `bad-op` on both sides. -/
-def step (w : World) (line : String) : World × Out :=
+def stepCore (w : World) (line : String) : World × Out :=
   let E := w.E
   let pf := E.pf
   let z := zero32
@@ -1283,5 +1273,148 @@ def step (w : World) (line : String) : World × Out :=
       | _, _ => badop
     | _, _ => badop
   | _ => badop
+
+
+/-! ## The proved specification as a twin of the driver's spec world
+
+The theorems (`xrun_refines`, `world_refines`) relate the model to the step function `xsstep` of
+`Proofs/WorldSsz.lean` (`wsstep` / `sstep` inside it). The oracle the implementation is held to is
+the spec world of this file, written separately and for a larger operation language. To tie the
+two, every line that is expressible as an `XOp` is *also* executed by `xsstep` on a mirrored
+`SWorld`; its output must be the driver's spec output and the resulting plain state of every
+handle must be the driver's. A difference is printed in the spec column as `TWIN-MISMATCH …`
+(which then fails the comparison with the implementation). Lines outside the `XOp` language only
+resynchronise the mirror. -/
+
+def fmtHOut : HOut V → Option String
+  | .ok => some "ok"
+  | .error e => some (fmtErr e)
+  | .none => some "none"
+  | .some v => some s!"some {hexOfBytes v}"
+  | .nat n => some s!"ok {n}"
+  | .bool b => some (fmtBool b)
+  | .vals l => some ("ok " ++ fmtVals l).trimAscii.toString
+  | .items l fin => some (fmtIter l fin)
+  | .unsupported => none
+
+def fmtXOut : XOut V Hh → Option String
+  | .w (.out o) => fmtHOut o
+  | .w (.hash h) => some s!"ok {hexOfBytes h}"
+  | .bytes b len => some s!"ok {hexOfBytes (ByteArray.mk b.toArray)} len={len}"
+  | .seq xs => some ("ok " ++ fmtVals xs).trimAscii.toString
+
+/-- the `XOp` a protocol line denotes (with the slot that receives a new handle, if it creates
+one), or `none` when the line is outside the proved operation language. -/
+def twinOp (w : World) (words : List String) : Option (XOp V × Option Nat) :=
+  let ix (h : String) : Option Nat := h.toNat?.bind (fun k => slotGet w.twinIdx k)
+  let on (h : String) (op : HOp V) : Option (XOp V × Option Nat) := (ix h).map (fun i => (.w (.on i op), none))
+  let kindOf (k : String) : Option CKind := if k = "list" then some .list else if k = "vec" then some .vector else none
+  match words with
+  | ["len", h] => on h .len
+  | ["isempty", h] => on h .isEmpty
+  | ["pending", h] => on h .pending
+  | ["get", h, i] => i.toNat?.bind (fun i => on h (.get i))
+  | ["tovec", h] => on h .toVec
+  | ["iterfrom", h, i] => i.toNat?.bind (fun i => on h (.iterFrom i))
+  | ["push", h, v] => (bytesOfHex v).bind (fun v => on h (.push v))
+  | ["getmut", h, i, v] => match i.toNat?, bytesOfHex v with
+    | some i, some v => on h (.getMut i v)
+    | _, _ => none
+  | "cow" :: h :: i :: act :: rest => match i.toNat?, parseVals rest with
+    | some i, some vs =>
+      (match act, vs with
+        | "read", [] => some CowAct.read
+        | "intomut", [x] => some (.intoMut x)
+        | "makemut", [x] => some (.makeMut x)
+        | "makemut2", [x, y] => some (.makeMut2 x y)
+        | _, _ => none).bind (fun a => on h (.cow i a))
+    | _, _ => none
+  | "bulk" :: h :: rest => match rest.mapM parseKVE with
+    | some kvs => if kvs.any (·.1) then none else on h (.bulk (kvs.map (·.2)))
+    | none => none
+  | ["apply", h] => on h .apply
+  | ["clone", a, b] => match ix a, b.toNat? with
+    | some i, some b => some (.w (.clone i), some b)
+    | _, _ => none
+  | "new" :: h :: k :: rest | "fromiter" :: h :: k :: rest => match h.toNat?, kindOf k, parseVals rest with
+    | some h, some k, some vs =>
+      -- (`Vector::new(vec)` reports a wrong length differently from `Vector::try_from_iter`, which
+      -- is what `newFromIter .vector` stands for)
+      if words.head? = some "new" ∧ k = .vector then none else some (.w (.newFromIter k vs), some h)
+    | _, _, _ => none
+  | ["repeat", h, n, v] => match h.toNat?, n.toNat?, bytesOfHex v with
+    | some h, some n, some v => if n > repThreshold then none else some (.w (.newRepeat v n), some h)
+    | _, _, _ => none
+  | ["fromelem", h, v] => match h.toNat?, bytesOfHex v with
+    | some h, some v => some (.w (.fromElem v), some h)
+    | _, _ => none
+  | ["pop", h, n] => match ix h, n.toNat? with
+    | some i, some n => some (.w (.pop i n), none)
+    | _, _ => none
+  | ["tovector", a, b] => match ix a, b.toNat? with
+    | some i, some b => some (.w (.toVector i), some b)
+    | _, _ => none
+  | ["tolist", a, b] => match ix a, b.toNat? with
+    | some i, some b => some (.w (.toList i), some b)
+    | _, _ => none
+  | ["rebase", a, b] => match ix a, ix b with
+    | some i, some j => some (.w (.rebase i j), none)
+    | _, _ => none
+  | ["intra", h] => (ix h).map (fun i => (.w (.intra i), none))
+  | ["root", h] => (ix h).map (fun i => (.w (.root i), none))
+  | ["eq", a, b] => match ix a, ix b with
+    | some i, some j => some (.w (.eqFlushed i j), none)
+    | _, _ => none
+  | ["ssz", h] => (ix h).map (fun i => (.sszEncode i, none))
+  | ["unssz", h, k, hex] => match h.toNat?, kindOf k, bytesOfHex hex with
+    | some h, some k, some b => some (.newFromSsz k b.toList, some h)
+    | _, _, _ => none
+  | ["ser", h] => (ix h).map (fun i => (.serdeSer i, none))
+  | "de" :: h :: k :: rest => match h.toNat?, kindOf k, parseVals rest with
+    | some h, some k, some vs => some (.newFromSerde k vs, some h)
+    | _, _, _ => none
+  | _ => none
+
+/-- does the mirrored entry equal the driver's plain state of that handle? -/
+def twinSame (s : SColl) (e : CKind × List V × Bool) : Bool :=
+  decide (s.kind = e.1) && decide (s.xs = e.2.1) && s.dirty == e.2.2
+
+/-- make the mirror agree with the driver's spec world (after a line outside the proved language):
+unknown or changed handles are appended afresh, dropped ones forgotten. Symbolic handles are not
+mirrored. -/
+def twinResync (w : World) : World :=
+  let live := w.scolls.filter (fun p => p.2.rep.isNone)
+  let (sw, idx) := live.foldl (fun (acc : SWorld V × List (Nat × Nat)) p =>
+    let keep := match slotGet w.twinIdx p.1 with
+      | some i => (match acc.1[i]? with | some e => twinSame p.2 e | none => false)
+      | none => false
+    if keep then (acc.1, (p.1, (slotGet w.twinIdx p.1).getD 0) :: acc.2)
+    else (acc.1 ++ [(p.2.kind, p.2.xs, p.2.dirty)], (p.1, acc.1.length) :: acc.2)) (w.twinSw, [])
+  { w with twinSw := sw, twinIdx := idx }
+
+def step (w : World) (line : String) : World × Out :=
+  let (w', (m, sp)) := stepCore w line
+  let words := (line.trimAscii.toString.splitOn " ").filter (· ≠ "")
+  if m = "bad-op" then (w', (m, sp)) else
+  match twinOp w words with
+  | none => (twinResync w', (m, sp))
+  | some (op, newSlot) =>
+    -- element roots are served from the cache the driver's own spec root has just filled
+    let E' : Elem V Hh := if w'.E.pf.isSome then w'.E else
+      { w'.E with leafHash := fun v => (w'.leafCache.get? v).getD (w'.E.leafHash v) }
+    let (o, sw') := xsstep E' alg mixIn w'.cfg.N w.twinSw op
+    let idx' := if sw'.length > w.twinSw.length then
+        (match newSlot with | some h => slotSet w.twinIdx h (sw'.length - 1) | none => w.twinIdx)
+      else w.twinIdx
+    let outOK : Bool := match fmtXOut o with
+      | none => true
+      | some t => sp = "*" || (sp = "err *" && t.startsWith "err") || t = sp
+    let stOK : Bool := idx'.all (fun p => match slotGet w'.scolls p.1, sw'[p.2]? with
+      | some s, some e => s.rep.isSome || twinSame s e
+      | none, _ => true
+      | some _, none => false)
+    let w'' := twinResync { w' with twinSw := sw', twinIdx := idx' }
+    if outOK && stOK then (w'', (m, sp))
+    else (w'', (m, s!"TWIN-MISMATCH out={(fmtXOut o).getD "-"} state-ok={stOK} driver-spec={sp}"))
 
 end Milhouse.Exec
